@@ -172,6 +172,7 @@ func (m *metadata) commit(tx *badger.Txn) {
 		panic(fmt.Errorf("mkvs/pathbadger: failed to save metadata: %w", err))
 	}
 
+	api.VerifCrashPoint()
 	err = tx.CommitAt(tsMetadata, nil)
 	if err != nil {
 		panic(fmt.Errorf("mkvs/pathbadger: failed to commit metadata: %w", err))
